@@ -1,5 +1,175 @@
-/- C01 — property theorems (to be written). -/
-import SoundeventModel.Basic
+/-
+  C01 — the AOEF save/load round trip is lossless, for every collection type, with and without
+  an audio directory, and is a fixpoint under repetition.
+
+  All statements are about the executable model `SE.Aoef` (`save`, `load`, `cycles`), which the
+  correspondence harness ties to `soundevent.io.aoef`.  `WF c` is the explicit hypothesis
+  (coherent sharing, distinct feature labels, distinct member uuids); `wfB` is its executable
+  form, evaluated by the harness on every generated input, and `wf_of_wfB` links the two.
+-/
+import Proofs.Lemmas.AoefRoundtrip
 namespace SE.Proofs.C01
+open SE SE.Aoef SE.Paths
+
+deriving instance DecidableEq for Except
+
+/-! ### concrete collections for the non-vacuity examples -/
+def exUser : User := { uuid := "u1", name := some "Ann" }
+def exTag1 : Tag := ⟨"species", "bat"⟩
+def exTag2 : Tag := ⟨"call", "social"⟩
+def exDir : PPath := ⟨"/", ["data"]⟩
+def exDir2 : PPath := ⟨"/", ["mnt", "audio"]⟩
+def exRec : Recording :=
+  { uuid := "r1", path := ⟨"/", ["data", "night", "a.wav"]⟩, duration := "1.5", channels := "1",
+    samplerate := "44100", time_expansion := "10.0", owners := [exUser],
+    features := [⟨"snr", "3.0"⟩], tags := [exTag1] }
+def exClip : Clip := { uuid := "c1", recording := exRec, start_time := "0.0", end_time := "1.0" }
+def exSE : SoundEvent := { uuid := "s1", geometry := some "box", recording := exRec }
+def exNote : Note := { uuid := "n1", message := "check", created_by := some exUser, created_on := "2020" }
+def exSEA : SoundEventAnnotation :=
+  { uuid := "a1", sound_event := exSE, notes := [exNote], tags := [exTag1], created_by := some exUser,
+    created_on := "2020" }
+def exCA : ClipAnnotation := { uuid := "ca1", clip := exClip, sound_events := [exSEA], created_on := "2020" }
+def exSEP : SoundEventPrediction :=
+  { uuid := "p1", sound_event := exSE, score := "0.9", tags := [⟨exTag2, "0.8"⟩] }
+def exCP : ClipPrediction :=
+  { uuid := "cp1", clip := exClip, sound_events := [exSEP], tags := [⟨exTag1, "0.5"⟩] }
+def exMatch : Match :=
+  { uuid := "m1", source := some exSEP, target := some exSEA, affinity := "0.7", score := some "0.9",
+    metrics := [⟨"iou", "0.7"⟩] }
+def exCE : ClipEvaluation :=
+  { uuid := "ce1", annotations := exCA, predictions := exCP, «matches» := [exMatch],
+    metrics := [⟨"acc", "1.0"⟩], score := some "1.0" }
+/-- an evaluation with one clip evaluation: an annotation with a tagged sound-event annotation and
+    a note by a user, a sound event on a recording with an owner, a feature and a time expansion,
+    a prediction with predicted tags, one match -/
+def exEval : Collection :=
+  .evaluation { uuid := "e1", created_on := "2020", evaluation_task := "sed",
+                clip_evaluations := [exCE], metrics := [⟨"map", "0.5"⟩], score := some "0.5" }
+
+def exSeq : Sequence := { node := { uuid := "q2", sound_events := [exSE] }, ancestors := [{ uuid := "q1" }] }
+def exSQA : SequenceAnnotation := { uuid := "qa1", sequence := exSeq, created_on := "2020" }
+def exCA2 : ClipAnnotation :=
+  { uuid := "ca2", clip := exClip, sound_events := [exSEA], sequences := [exSQA], created_on := "2020" }
+def exTask : AnnotationTask :=
+  { uuid := "t1", clip := exClip,
+    status_badges := [{ state := "completed", owner := some exUser, created_on := "2020" }],
+    created_on := "2020" }
+/-- an annotation project: a clip annotation with a sequence annotation (a sequence with a
+    parent), project tags and a task with a status badge -/
+def exProject : Collection :=
+  .annotationProject { uuid := "ap1", clip_annotations := [exCA2], created_on := "2020", name := "proj",
+                       annotation_tags := [exTag2], tasks := [exTask] }
+
+theorem wfB_exEval : wfB exEval = true := by decide +kernel
+theorem wfB_exProject : wfB exProject = true := by decide +kernel
+theorem wf_exEval : WF exEval := wf_of_wfB _ wfB_exEval
+theorem wf_exProject : WF exProject := wf_of_wfB _ wfB_exProject
+theorem inside_exEval : ∀ r ∈ recsOf exEval.trav, inside r.path exDir := by decide +kernel
+theorem inside_exProject : ∀ r ∈ recsOf exProject.trav, inside r.path exDir := by decide +kernel
+
+/-! sanity: the model really round-trips them (by evaluation) -/
+example : cycles none none 2 exEval = .ok exEval := by decide +kernel
+example : cycles none none 2 exProject = .ok exProject := by decide +kernel
+example : cycles (some exDir) (some exDir) 2 exEval = .ok exEval := by decide +kernel
+example : cycles (some exDir) (some exDir2) 1 exProject
+    = .ok (exProject.mapPath (relocated (some exDir) (some exDir2))) := by decide +kernel
+/-- the relocation is not trivial: the recording moves to the other directory -/
+example : relocated (some exDir) (some exDir2) exRec.path = ⟨"/", ["mnt", "audio", "night", "a.wav"]⟩ := by
+  decide +kernel
+/-- `WF` matters: two different recordings under one uuid do not survive the round trip -/
+example : let c : Collection := .recordingSet
+            { uuid := "rs", created_on := "2020",
+              recordings := [exRec, { exRec with duration := "2.5" }] }
+          wfB c = false ∧ cycles none none 1 c ≠ .ok c := by decide +kernel
+
+/-! ### the link between the executable check and the hypothesis -/
+theorem C01_wf_of_wfB (c : Collection) (h : wfB c = true) : WF c := wf_of_wfB c h
+example : wfB exEval = true := wfB_exEval
+/-- and conversely: `wfB` decides `WF` -/
+theorem C01_wfB_iff (c : Collection) : wfB c = true ↔ WF c := wfB_iff c
+
+/-! ### the general theorem -/
+/-- Loading (under `ld`) what was saved (under `sd`) gives the collection back with every
+    recording's path relocated. -/
+theorem C01_roundtrip_general (c : Collection) (sd ld : Option PPath) (d : Doc)
+    (hwf : WF c) (hs : save c sd = .ok d) :
+    load d ld = .ok (c.mapPath (relocated sd ld)) :=
+  roundtrip_general c sd ld d hwf hs
+example : ∃ d, WF exProject ∧ save exProject (some exDir) = .ok d :=
+  ⟨_, wf_exProject, save_of_pathsOK (fun r hr => pathOK_inside (inside_exProject r (recsOf_mem.2 hr)))⟩
+
+/-! ### the property theorems -/
+/-- saving without an audio directory never fails -/
+theorem C01_save_total : ∀ c : Collection, ∃ d, save c none = .ok d :=
+  fun c => ⟨_, save_total c⟩
+
+/-- save then load (no audio directory) is the identity -/
+theorem C01_roundtrip (c : Collection) (d : Doc) (hwf : WF c) (hs : save c none = .ok d) :
+    load d none = .ok c := by
+  rw [roundtrip_general c none none d hwf hs, mapPath_relocated_none]
+example : ∃ d, WF exEval ∧ save exEval none = .ok d := ⟨_, wf_exEval, save_total _⟩
+
+/-- with an audio directory that contains every recording: saving succeeds and loading under
+    the same directory is the identity -/
+theorem C01_roundtrip_dir (c : Collection) (A : PPath) (hwf : WF c)
+    (hin : ∀ r ∈ recsOf c.trav, inside r.path A) :
+    ∃ d, save c (some A) = .ok d ∧ load d (some A) = .ok c := by
+  have hs : save c (some A) = .ok (saveT c (some A)) :=
+    save_of_pathsOK (fun r hr => pathOK_inside (hin r (recsOf_mem.2 hr)))
+  refine ⟨_, hs, ?_⟩
+  rw [roundtrip_general c (some A) (some A) _ hwf hs,
+    mapPath_fix (fun r hr => relocated_same (hin r (recsOf_mem.2 hr)))]
+example : WF exEval ∧ ∀ r ∈ recsOf exEval.trav, inside r.path exDir := ⟨wf_exEval, inside_exEval⟩
+
+/-- saving under `A` and loading under `B` relocates every recording -/
+theorem C01_relocate (c : Collection) (A B : PPath) (d : Doc) (hwf : WF c)
+    (hs : save c (some A) = .ok d) :
+    load d (some B) = .ok (c.mapPath (relocated (some A) (some B))) :=
+  roundtrip_general c (some A) (some B) d hwf hs
+example : ∃ d, WF exEval ∧ save exEval (some exDir) = .ok d :=
+  ⟨_, wf_exEval, save_of_pathsOK (fun r hr => pathOK_inside (inside_exEval r (recsOf_mem.2 hr)))⟩
+
+/-- the round trip is a fixpoint: any number of save/load cycles gives the collection back -/
+theorem C01_fixpoint (c : Collection) (hwf : WF c) : ∀ n, cycles none none n c = .ok c :=
+  cycles_fix (save_total c) (C01_roundtrip c _ hwf (save_total c))
+example : WF exProject := wf_exProject
+
+theorem C01_fixpoint_dir (c : Collection) (A : PPath) (hwf : WF c)
+    (hin : ∀ r ∈ recsOf c.trav, inside r.path A) : ∀ n, cycles (some A) (some A) n c = .ok c := by
+  obtain ⟨d, hs, hl⟩ := C01_roundtrip_dir c A hwf hin
+  exact cycles_fix hs hl
+example : WF exProject ∧ ∀ r ∈ recsOf exProject.trav, inside r.path exDir :=
+  ⟨wf_exProject, inside_exProject⟩
+
+/-- the document carries the collection's type, and the loaded collection has the document's -/
+theorem C01_same_type_save (c : Collection) (sd : Option PPath) (d : Doc) (hs : save c sd = .ok d) :
+    d.collection_type = c.typeName := save_typeName hs
+example : ∃ d, save exEval (some exDir) = .ok d :=
+  ⟨_, save_of_pathsOK (fun r hr => pathOK_inside (inside_exEval r (recsOf_mem.2 hr)))⟩
+
+theorem C01_same_type_load (d : Doc) (ld : Option PPath) (c' : Collection) (hl : load d ld = .ok c') :
+    c'.typeName = d.collection_type := load_typeName hl
+example : ∃ c', load (saveT exEval none) (some exDir2) = .ok c' :=
+  ⟨_, roundtrip_general exEval none (some exDir2) _ wf_exEval (save_total _)⟩
+
+theorem C01_same_type :
+    (∀ (c : Collection) (sd : Option PPath) (d : Doc), save c sd = .ok d → d.collection_type = c.typeName)
+    ∧ (∀ (d : Doc) (ld : Option PPath) (c' : Collection), load d ld = .ok c' → c'.typeName = d.collection_type) :=
+  ⟨C01_same_type_save, C01_same_type_load⟩
+
+/-- a table scanned first-match picks, for every listed class, the class's own adapter, provided
+    the table is most-specific-first (instantiated on the ADAPTERS table of the code by a
+    regenerated obligation) -/
+theorem C01_type_dispatch (order : List String) (sub : String → String → Bool) (c : String)
+    (h : MostSpecificFirst order sub = true) (hc : c ∈ order) : firstMatch order sub c = some c :=
+  firstMatch_self h hc
+example : MostSpecificFirst adapterOrder collectionSub = true ∧ "dataset" ∈ adapterOrder := by decide
+/-- on the real table every collection type reaches its own adapter -/
+example : ∀ c ∈ adapterOrder, firstMatch adapterOrder collectionSub c = some c := by decide
+/-- a table listing `recording_set` before `dataset` sends datasets to the wrong adapter -/
+example : MostSpecificFirst ("recording_set" :: adapterOrder.filter (· != "recording_set")) collectionSub = false
+    ∧ firstMatch ("recording_set" :: adapterOrder.filter (· != "recording_set")) collectionSub "dataset"
+        = some "recording_set" := by decide
 
 end SE.Proofs.C01
